@@ -373,6 +373,103 @@ fn check(c: &Case) -> Verdict {
     fails.finish(pass)
 }
 
+// ---------------------------------------------------------------------------------------------
+// async twin of the region query (registered under C16)
+
+#[derive(Clone, Debug, Serialize, Deserialize)]
+pub struct AsyncQueryCase {
+    pub case: Case,
+    pub script: crate::io_adv::async_adv::PollScript,
+}
+
+pub fn async_query_strategy(tier: Tier) -> BoxedStrategy<AsyncQueryCase> {
+    let script = prop_oneof![
+        1 => Just(crate::io_adv::async_adv::PollScript { steps: vec![] }),
+        2 => Just(crate::io_adv::async_adv::PollScript { steps: vec![0, 1] }),
+        3 => proptest::collection::vec(prop_oneof![2 => Just(0u32), 3 => 1u32..8, 2 => 1u32..700, 1 => Just(70_000u32)], 1..7).prop_map(|steps| crate::io_adv::async_adv::PollScript { steps }),
+    ];
+    (strategy(tier), script).prop_map(|(case, script)| AsyncQueryCase { case, script }).boxed()
+}
+
+/// Sync `Reader::query` vs async `Reader::query` with the same (expected) index on the same file.
+pub fn check_async_queries(c: &AsyncQueryCase) -> Verdict {
+    use crate::io_adv::async_adv::AdvAsyncRead;
+    use futures::TryStreamExt;
+    let doc = &c.case.doc;
+    let n = doc.to_noodles();
+    let flat = &n.flat;
+    let key = key_of(c);
+    let bytes = match panics::catch(|| g::write_noodles(doc, &n)) {
+        Ok(Ok(b)) => b,
+        // what the writer does with the document is C07's / C19's subject
+        _ => return Ok(Pass::new(false, key).label("not-written")),
+    };
+    let Ok(f) = walk::walk(&bytes) else { return Ok(Pass::new(false, key).label("not-walkable")) };
+    let Ok(ex) = expected_index(flat, &f) else { return Ok(Pass::new(false, key).label("not-walkable")) };
+    let mut index_entries = ex.required.clone();
+    index_entries.extend(ex.optional.iter().cloned());
+    index_entries.sort_by_key(|e| (e.offset, e.landmark, e.ref_id.map(|x| x as i64).unwrap_or(i64::MAX)));
+    let index: cram::crai::Index = index_entries.iter().map(record_of).collect();
+    let data = std::sync::Arc::new(bytes.clone());
+    let rt = crate::drivers::asyncs::runtime();
+    let mut fails = Fails::new();
+    let (mut evals, mut nonempty) = (0u64, 0u64);
+    let ctx = if ex.multi_ref { "multi-ref-slice" } else { "single-ref-slices" };
+    for spec in &c.case.regions {
+        let Some(res) = resolve(doc, flat, spec) else { continue };
+        let Some(region) = to_region(doc, &res) else { continue };
+        evals += 1;
+        let sync_ans = panics::catch(|| -> std::io::Result<Vec<String>> {
+            let mut reader = cram::io::reader::Builder::default().set_reference_sequence_repository(n.repository.clone()).build_from_reader(std::io::Cursor::new(&bytes[..]));
+            let header = reader.read_header()?;
+            let q = reader.query(&header, &index, &region)?;
+            q.records().map(|r| r.map(|r| ident(&g::canon_of_record(&r)))).collect()
+        });
+        let src = AdvAsyncRead::new(data.clone(), &c.script);
+        let async_ans = panics::catch(|| -> std::io::Result<Vec<String>> {
+            rt.block_on(async {
+                let mut reader = cram::r#async::io::reader::Builder::default().set_reference_sequence_repository(n.repository.clone()).build_from_reader(src);
+                let header = reader.read_header().await?;
+                let q = reader.query(&header, &index, &region)?;
+                let mut recs = std::pin::pin!(q.records());
+                let mut out = Vec::new();
+                while let Some(r) = recs.try_next().await? {
+                    out.push(ident(&g::canon_of_record(&r)));
+                }
+                Ok(out)
+            })
+        });
+        let what = format!("query {}:{}-{}", doc.refs[res.0].name, res.1.map(|x| x.to_string()).unwrap_or_default(), res.2.map(|x| x.to_string()).unwrap_or_default());
+        // a panic of the sync reader is C19's finding; here only the relation between the two counts
+        let (a, b) = match (sync_ans, async_ans) {
+            (Ok(a), Ok(b)) => (a, b),
+            (Err(_), _) => continue,
+            (Ok(_), Err(p)) => {
+                fails.push(format!("c16.query.async-panic:cram:{}", p.sig()), format!("{what}: {}", p.describe()));
+                break;
+            }
+        };
+        if a.as_ref().map(|v| !v.is_empty()).unwrap_or(false) {
+            nonempty += 1;
+        }
+        let same = match (&a, &b) {
+            (Ok(x), Ok(y)) => x == y,
+            (Err(_), Err(_)) => true,
+            _ => false,
+        };
+        if !same {
+            let show = |r: &std::io::Result<Vec<String>>| match r {
+                Ok(v) => format!("{} records {}", v.len(), trunc(&format!("{v:?}"), 300)),
+                Err(e) => format!("Err({e})"),
+            };
+            let leak = matches!((&a, &b), (Ok(x), Ok(y)) if y.len() > x.len());
+            fails.push(format!("c16.query.differs:cram{}@{ctx}", if leak { ".async-returns-more" } else { "" }), format!("{what}: sync reader {}, async reader {}", show(&a), show(&b)));
+            break;
+        }
+    }
+    fails.finish(Pass::new(nonempty > 0, key).evals(evals.max(1)).label("cram").label_if(ex.multi_ref, "multi-ref-slice").label_if(nonempty > 0, "non-empty-answer"))
+}
+
 pub fn property() -> Property {
     Property {
         id: "C19",
